@@ -36,13 +36,15 @@ VALID = {
     "Content-Type": ["application/json; charset=utf-8", "multipart/form-data; boundary=abc", "application/x-www-form-urlencoded; charset=latin-1"],
     "Content-Length": ["10"],
     "Cookie": ['a=b; c="d\\073e"; f'],
-    "Date": ["Wed, 21 Oct 2015 07:28:00 GMT"],
+    "Date": ["Wed, 21 Oct 2015 07:28:00 GMT", "Tue, 15 Nov 1994 08:12:31", "Tue, 15 Nov 1994 08:12:31 -0000", "15 Nov 1994 08:12",
+             "1 Jan 24 99999999999999999999:00", "1 Jan 0001 00:00:00 +2300", "31 Dec 9999 23:59:59 -2300"],
     "Referer": ["http://example.com/a?b=c"],
     "Host": ["example.com:8080"],
     "Range": ["bytes=0-4,9-"],
     "If-Range": ['"abc"'],
     "If-None-Match": ['W/"abc", "def"'],
-    "If-Modified-Since": ["Wed, 21 Oct 2015 07:28:00 GMT"],
+    "If-Modified-Since": ["Wed, 21 Oct 2015 07:28:00 GMT", "Tue, 15 Nov 1994 08:12:31", "Tue, 15 Nov 1994 08:12:31 -0000",
+                          "1 Jan 24 99999999999999999999:00", "1 Jan 0001 00:00:00 +2300", "31 Dec 9999 23:59:59 -2300"],
 }
 
 
@@ -144,6 +146,44 @@ def path_case(iface, app_kind, path, tmpdir):
     return ["%s(%r) -> %s" % (app_kind, path, c)] if c else []
 
 
+def static_case(iface, app_kind, path, header, value, tmpdir, query=""):
+    """Files / Pages for `path` with one request header (conditional headers, Host) and a raw query string"""
+    import baize.wsgi as W
+    import baize.asgi as A
+    mod = W if iface == "wsgi" else A
+    value = latin1(value).replace("\r", "").replace("\n", "")
+    app = getattr(mod, app_kind)(tmpdir)
+    if iface == "wsgi":
+        env = wsgi_environ("GET", path, [(header, value)])
+        env["QUERY_STRING"] = query
+        rec = run_wsgi(app, env)
+    else:
+        sc = asgi_scope("GET", path, [(header, value)])
+        sc["query_string"] = query.encode("latin-1")
+        rec = run_asgi(app, sc)
+    c = classify(rec["exception"])
+    return ["%s(%r, %s: %r, ?%r) -> %s" % (app_kind, path, header, value, query, c)] if c else []
+
+
+def sparse_environ_case(drop):
+    """PEP 3333: QUERY_STRING, CONTENT_TYPE, CONTENT_LENGTH, SCRIPT_NAME, PATH_INFO may be empty or absent"""
+    import baize.wsgi as W
+    env = wsgi_environ("GET", "/p", [])
+    for k in drop:
+        env.pop(k, None)
+    req = W.Request(env)
+    bad = []
+    for name in ("accepted_types", "content_type", "content_length", "cookies", "date", "referrer", "url", "query_params", "headers", "client",
+                 "method"):
+        try:
+            getattr(req, name)
+        except Exception as e:  # noqa
+            c = classify(e)
+            if c:
+                bad.append("%s without %s -> %s" % (name, "/".join(drop), c))
+    return bad
+
+
 def fileresponse_case(iface, header, value, tmpfile):
     import baize.wsgi as W
     import baize.asgi as A
@@ -203,6 +243,12 @@ def replay(inputs):
             v = path_case(inputs["iface"], inputs["app"], inputs["path"], d)
         elif k == "fileresponse":
             v = fileresponse_case(inputs["iface"], inputs["header"], inputs["value"], p)
+        elif k == "static":
+            os.makedirs(os.path.join(d, "sub"), exist_ok=True)
+            open(os.path.join(d, "sub", "index.html"), "wb").write(b"x")
+            v = static_case(inputs["iface"], inputs["app"], inputs["path"], inputs["header"], inputs["value"], d, inputs.get("query", ""))
+        elif k == "sparse_environ":
+            v = sparse_environ_case(inputs["drop"])
         else:
             v = multipart_case(inputs["body"].encode("latin-1"), inputs["boundary"].encode("latin-1"), inputs["charset"])
         return {"violated": v, "region": region_of(inputs, v)}
@@ -240,8 +286,12 @@ def bounded(tier, seed):
                             record({"kind": "fileresponse", "iface": iface, "header": header, "value": latin1(val)},
                                    fileresponse_case(iface, header, val, p))
                         record({"kind": "accessors", "iface": iface, "header": header, "value": latin1(val)}, accessors_case(iface, header, val))
-            bodies = [b'{"a": 1}', b'{"a": "\xff"}', b"\xff\xfe", b"a=1&b=%ff", b"\x00" * 3, b"[" * 2000, b'{"a":' + b"9" * 5000 + b"}", b""]
-            ctypes = ["application/json", "application/json; charset=zz", "application/json; charset=utf-16", "application/x-www-form-urlencoded",
+            bodies = [b'{"a": 1}', b'{"a": "\xff"}', b"\xff\xfe", b"a=1&b=%ff", b"\x00" * 3, b"[" * 2000, b'{"a":' + b"9" * 5000 + b"}", b"",
+                      b'--b\r\nContent-Disposition: form-data; name="a"\r\n\r\nx\xff\r\n--b--\r\n']
+            ctypes = ["application/json; charset=undefined", 'application/json; charset="utf8\x00"',
+                      "application/x-www-form-urlencoded; charset=undefined", 'application/x-www-form-urlencoded; charset="utf8\x00"',
+                      "multipart/form-data; boundary=b; charset=undefined", 'multipart/form-data; boundary=b; charset="utf8\x00"',
+                      "application/json", "application/json; charset=zz", "application/json; charset=utf-16", "application/x-www-form-urlencoded",
                       "application/x-www-form-urlencoded; charset=utf-8", "application/x-www-form-urlencoded; charset=nope", "multipart/form-data",
                       "multipart/form-data; boundary=b", "text/plain", "", "application/json; charset="]
             for ct in ctypes:
@@ -256,12 +306,32 @@ def bounded(tier, seed):
                     evals += 1
                     distinct.add((iface, app_kind, pth))
                     record({"kind": "path", "iface": iface, "app": app_kind, "path": latin1(pth)}, path_case(iface, app_kind, pth, d))
+            # the static-file apps with conditional headers on an existing file, and the Pages directory redirect (which
+            # rebuilds the request URL) with a hostile Host header / query string
+            for header in ("If-Modified-Since", "If-None-Match"):
+                for base in VALID[header]:
+                    for val in mutations(rng, base, max(4, n_mut // 3)):
+                        for app_kind in ("Files", "Pages"):
+                            evals += 1
+                            distinct.add((iface, app_kind, header, val))
+                            record({"kind": "static", "iface": iface, "app": app_kind, "path": "/f.txt", "header": header, "value": latin1(val)},
+                                   static_case(iface, app_kind, "/f.txt", header, val, d))
+            for host in ["example.com", "[", "[::1", "a:b:c", "\xff", ""] + NOISE[:8]:
+                for query in ("", "a=1", "\xff", "%ff", "a=\xe9"):
+                    evals += 1
+                    distinct.add((iface, "redirect", host, query))
+                    record({"kind": "static", "iface": iface, "app": "Pages", "path": "/sub", "header": "Host", "value": latin1(host), "query": query},
+                           static_case(iface, "Pages", "/sub", "Host", host, d, query))
+        for drop in (["QUERY_STRING"], ["CONTENT_TYPE"], ["CONTENT_LENGTH"], ["SCRIPT_NAME"], ["QUERY_STRING", "CONTENT_TYPE", "CONTENT_LENGTH", "SCRIPT_NAME"]):
+            evals += 1
+            distinct.add(("sparse", tuple(drop)))
+            record({"kind": "sparse_environ", "drop": drop}, sparse_environ_case(drop))
         good = (b"--b\r\nContent-Disposition: form-data; name=\"a\"\r\n\r\nv\r\n--b\r\nContent-Disposition: form-data; name=\"f\"; filename=\"n\"\r\n"
                 b"Content-Type: text/plain\r\n\r\ndata\r\n--b--\r\n")
         mp = [good, good[:40], good.replace(b"Content-Disposition:", b"Content-Disposition"), good.replace(b"name=\"a\"", b"name=\"\xff\""),
               b"--b\r\nno colon here\r\n\r\nv\r\n--b--\r\n", b"--b--\r\n", b"", b"--b\r\n\r\n\r\n--b--\r\n", good.replace(b"\r\n", b"\n")]
         for body in mp + [bytes(rng.randrange(256) if rng.random() < 0.03 else c for c in good) for _ in range(n_mut * 3)]:
-            for charset in ("utf8", "zz", "latin-1"):
+            for charset in ("utf8", "zz", "latin-1", "undefined", "utf8\x00"):
                 evals += 1
                 distinct.add(("mp", body, charset))
                 record({"kind": "multipart", "body": body.decode("latin-1"), "boundary": "b", "charset": charset}, multipart_case(body, b"b", charset))
@@ -270,7 +340,9 @@ def bounded(tier, seed):
     return {"evaluations": evals, "distinct_nontrivial": len(distinct), "failures": failures, "samples": samples or [{"header": "Range", "value": NOISE[5]}],
             "rule": "for each of 11 request headers: the valid value, 29 noise strings and %d seeded grammar-aware mutations through "
                     "every header-derived accessor (and FileResponse for Range/If-Range); JSON / urlencoded / multipart bodies x "
-                    "content types incl. unknown charsets; paths (dot segments, NUL, 0xff, 5000-digit numbers, impossible dates) "
+                    "content types incl. unknown / unusable charsets; conditional headers (incl. zone-less and out-of-range dates) on "
+                    "Files / Pages; the Pages directory redirect with hostile Host / query; WSGI environs without the optional "
+                    "variables; paths (dot segments, NUL, 0xff, 5000-digit numbers, impossible dates) "
                     "through Files, Pages and a typed Router; multipart bodies with bit flips; both interfaces; an escaping "
                     "exception that is not a 4xx HTTPException / ClientDisconnect / 'Stream consumed' is a violation" % n_mut,
             "exhaustive": False}
